@@ -435,8 +435,17 @@ def _same_order(prog, fm: FuncModel, e: ast.AST, net: ast.AST, at, depth: int = 
             g = prog.model(prog.repo.functions[tgt])
             p0 = g.f.params()[0]
             rets = [r for r in own_walk(g.f.node) if isinstance(r, ast.Return) and r.value is not None]
-            if rets and all(_same_order(prog, g, r.value, ast.Name(p0, ast.Load()), g.cfgn(r), depth + 1) for r in rets) \
-                    and not any(isinstance(x, ast.Name) and x.id == p0 and isinstance(x.ctx, ast.Store) for x in own_walk(g.f.node)):
+            # the parameter may be re-bound, but only to an order-preserving derivation of itself
+            rebinds = [x for x in own_walk(g.f.node) if isinstance(x, ast.Name) and x.id == p0 and isinstance(x.ctx, ast.Store)]
+            ok_rebinds = True
+            for x in rebinds:
+                st_ = g.f.stmt_of(x)
+                v_ = st_.value if isinstance(st_, ast.Assign) and len(st_.targets) == 1 and st_.targets[0] is x else None
+                while isinstance(v_, ast.Call) and isinstance(v_.func, ast.Attribute) and v_.func.attr in ORDER_PRESERVING_METHODS and not v_.args:
+                    v_ = v_.func.value
+                if not (isinstance(v_, ast.Name) and v_.id == p0):
+                    ok_rebinds = False
+            if rets and all(_same_order(prog, g, r.value, ast.Name(p0, ast.Load()), g.cfgn(r), depth + 1) for r in rets) and ok_rebinds:
                 return _same_order(prog, fm, e.args[0], net, at, depth + 1)
     return False
 
